@@ -12,7 +12,7 @@ import ast
 
 from ..cfg import CFG
 from ..core import AnalysisError, FuncNode, call_name, calls_in, const_str, last_attr, names_in, src
-from ..filerules import FILE, missing_path_obligations
+from ..filerules import FILE, missing_path_obligations, walk_join_obligations
 
 EXPLANATION = (
     "C30.1 mutator refresh: in every method of the File/FileSet/Dir hierarchy, an object whose path is the target of a filesystem copy / "
@@ -140,3 +140,7 @@ def run(ctx):
         r5.check(ok, f"{m.rel}:{q}", f"{q} does not return self.{a}.copy_to(self.{b}) (the destination refreshed by copy_to)", m.rel, fn.lineno)
     fc = m.func("File.copy_to")
     r5.check("dest_file.update_hash()" in src(fc), f"{m.rel}:File.copy_to", "File.copy_to does not refresh the destination's hash", m.rel, fc.lineno)
+
+    rw = ctx.rule("C30.6", "directory member hashes address each member at its own path (os.walk join idiom)", floor=1)
+    for construct, ok, msg, rel, line in walk_join_obligations(repo):
+        rw.check(ok, construct, msg, rel, line)
